@@ -60,14 +60,16 @@ fn main() {
     }
 
     let full = bt::alphabet(3, true, true);
+    let medium = bt::alphabet(2, true, true);
     let small = bt::alphabet(2, true, false);
     let growth = bt::alphabet_growth();
     let jobs: Vec<Job> = match run.tier {
         Tier::Quick => vec![
             // cross-check of the dedup key: everything to depth 2 without pruning
             Job { key_type: "String", unique: false, start: None, alphabet: full.clone(), depth: 2, dedup: false, share: 0.05 },
-            Job { key_type: "String", unique: false, start: None, alphabet: full.clone(), depth: 4, dedup: true, share: 0.40 },
-            Job { key_type: "String", unique: true, start: None, alphabet: full.clone(), depth: 3, dedup: true, share: 0.15 },
+            Job { key_type: "String", unique: false, start: None, alphabet: full.clone(), depth: 3, dedup: true, share: 0.15 },
+            Job { key_type: "String", unique: false, start: None, alphabet: medium.clone(), depth: 4, dedup: true, share: 0.30 },
+            Job { key_type: "String", unique: true, start: None, alphabet: full.clone(), depth: 3, dedup: true, share: 0.10 },
             Job { key_type: "u64", unique: false, start: None, alphabet: full.clone(), depth: 3, dedup: true, share: 0.15 },
             Job { key_type: "u64", unique: true, start: None, alphabet: small.clone(), depth: 3, dedup: true, share: 0.05 },
             Job { key_type: "String", unique: false, start: Some(1), alphabet: small.clone(), depth: 2, dedup: true, share: 0.05 },
